@@ -59,7 +59,10 @@ def set_calls(node, setname):
     return out
 
 
-def loc_removed(body, setname, locvar):
+HELPERS = {}
+
+
+def loc_removed(body, setname, locvar, depth=0):
     """Is the cell of Loc-typed variable `locvar` removed from `setname` when it is a Mem location?"""
     def iflets(node):
         for i in walk_t(node, "If"):
@@ -80,6 +83,22 @@ def loc_removed(body, setname, locvar):
     for i, b, scr in iflets(body):
         if scr == locvar and any(mth == "remove" and arg == b for mth, arg, _ in set_calls(i, setname)):
             return True
+    # through a helper of this file that receives the set and the location: the helper's body is asked the same question
+    if depth < 2:
+        for c_ in list(walk_t(body, "Call")) + list(walk_t(body, "MethodCall")):
+            nm = (path_name(strip_paren(c_["func"])) or "").split("::")[-1] if c_["t"] == "Call" else c_["method"]
+            h = HELPERS.get(nm)
+            if h is None:
+                continue
+            ps = [p_["pat"]["name"] for p_ in h["sig"]["inputs"] if p_["t"] == "Arg" and p_["pat"]["t"] == "PIdent"]
+            args = []
+            for a_ in c_["args"]:
+                while a_["t"] in ("Reference", "Paren") or (a_["t"] == "Unary" and a_["op"] == "*"):
+                    a_ = a_["expr"]
+                args.append(path_name(a_))
+            if len(ps) == len(args) and setname in args and locvar in args:
+                if loc_removed(h["body"], ps[args.index(setname)], ps[args.index(locvar)], depth + 1):
+                    return True
     # through `for src in [a, b]`
     for l in walk_t(body, "ForLoop"):
         it = strip_paren(l["expr"])
@@ -90,6 +109,8 @@ def loc_removed(body, setname, locvar):
                 for i, b, scr in iflets(l["body"]):
                     if scr == lv and any(mth == "remove" and arg == b for mth, arg, _ in set_calls(i, setname)):
                         return True
+                if depth < 2 and loc_removed(l["body"], setname, lv, depth + 1):
+                    return True
     return False
 
 
@@ -98,6 +119,12 @@ def run_pass_kill(res, ast):
              "set; every cell read (dead stores) resp. every cell access (pending zeroing) removes that cell",
              floor=20, what="(pass, instruction kind, operand) obligations")
     res.files.add(BC)
+    HELPERS.clear()
+    byname = {}
+    for f_ in ast.find_fns(BC):
+        if f_["node"].get("body") and not is_test_item(f_):
+            byname.setdefault(f_["name"], []).append(f_["node"])
+    HELPERS.update({k: v[0] for k, v in byname.items() if len(v) == 1})
     for fname, setname, mode in (("dead_store_elim", "dead", "reads"), ("zeroing_move_detection", "zerod", "accesses")):
         try:
             fn = ast.fn(BC, fname)["node"]
@@ -105,8 +132,12 @@ def run_pass_kill(res, ast):
             res.missing("PASS-KILL", m)
             continue
         import pm
-        matches = [m for m in walk_t(fn["body"], "Match") if pm.match_expr(m["expr"], "self.insts[__v_i]") or pm.match_expr(m["expr"], "&mut self.insts[__v_i]")
-                   or pm.match_expr(m["expr"], "&self.insts[__v_i]")]
+        def is_inst(e_):
+            return any(pm.match_expr(e_, pt) is not None for pt in ("self.insts[__v_i]", "&mut self.insts[__v_i]", "&self.insts[__v_i]"))
+        # a local copy / borrow of the current instruction (`let inst = self.insts[i];`) is the instruction as well
+        inst_locals = {l["pat"]["name"] for l in walk_t(fn["body"], "Local") if l["pat"]["t"] == "PIdent" and l.get("init") is not None and is_inst(strip_paren(l["init"]))}
+        matches = [m for m in walk_t(fn["body"], "Match") if is_inst(m["expr"]) or path_name(strip_paren(m["expr"])) in inst_locals
+                   or (strip_paren(m["expr"])["t"] in ("Reference", "Unary") and path_name(strip_paren(strip_paren(m["expr"])["expr"])) in inst_locals)]
         # the pending set is the one hash container this pass creates
         sets = [l["pat"]["name"] for l in walk_t(fn["body"], "Local") if l["pat"]["t"] == "PIdent" and l["init"] is not None
                 and strip_paren(l["init"])["t"] == "Call" and (path_name(strip_paren(l["init"])["func"]) or "").split("::<")[0] in ("HashSet::new", "HashMap::new")]
